@@ -27,10 +27,22 @@ pub fn run(prop: &str, tier: Tier, seed: i64, replay: Option<&str>) -> i32 {
             if matches!(prop, "C06" | "C01" | "C10" | "C04") {
                 ck.pumping_stage();
             }
+            if matches!(prop, "C04" | "C06" | "C10") {
+                builder_stages(&mut ck, true);
+            }
+            if prop == "C06" {
+                c11(&mut ck);
+                checksum_stage(&mut ck);
+            }
         },
         "C03" => {
             let (a, r) = sweeps::c03_sweep(tier);
             ck.add_stage(a, r);
+            ck.lens_stage(plans_for(prop, tier));
+            builder_stages(&mut ck, false);
+        },
+        "C12" => {
+            checksum_stage(&mut ck);
             ck.lens_stage(plans_for(prop, tier));
         },
         #[cfg(feature = "typed")]
@@ -50,12 +62,108 @@ pub fn run(prop: &str, tier: Tier, seed: i64, replay: Option<&str>) -> i32 {
             ck.add_stage(a, r);
             ck.lens_stage(plans_for(prop, tier));
         },
+        "C11" => c11(&mut ck),
+        "C09" => builder_stages(&mut ck, true),
         _ => {
             eprintln!("MACHINERY: no check for {prop} in this build");
             return 2;
         },
     }
     ck.finish()
+}
+
+/// Engine C over the builder (String and PackageType) plus the direct product of final states.
+fn builder_stages(ck: &mut Check, with_product: bool) {
+    use crate::m_builder::*;
+    use crate::xstate::bfs;
+    let mon = monitors_for(ck.prop) & (M03 | M04 | M06 | M10 | M12);
+    let depth = match (ck.tier, ck.prop) {
+        (Tier::Quick, _) => 2,
+        (Tier::Thorough, "C09") => 3,
+        (Tier::Thorough, _) => 2,
+    };
+    fn one<T: BFlavor>(ck: &mut Check, mon: u32, depth: usize, with_product: bool) {
+        let m = BModel::<T>::new(ck.prop, mon, if ck.tier == Tier::Quick { 1 } else { 2 });
+        let t0 = Instant::now();
+        let mut res = bfs(&m, Some(depth), 6_000_000);
+        res.acc.nontrivial = res.states;
+        ck.states = Some(ck.states.unwrap_or(0) + res.states);
+        ck.transitions = Some(ck.transitions.unwrap_or(0) + res.transitions);
+        ck.traces = ck.transitions;
+        if res.acc.counters.contains_key("state_cap_hit") {
+            ck.exhaustive = false;
+        }
+        ck.add_stage(
+            res.acc,
+            json!({"engine": "C-bfs", "model": T::MODEL, "value_universe": UNIVERSE, "actions_per_state": m.acts.len(), "initial_states": res.inits,
+                   "states_stored": res.states, "transitions": res.transitions, "depth": depth, "new_states_per_depth": res.per_depth, "wall_s": t0.elapsed().as_secs_f64()}),
+        );
+        if with_product {
+            let (a, r) = product::<T>(ck.prop, mon, ck.tier);
+            ck.add_stage(a, r);
+        }
+    }
+    one::<String>(ck, mon, depth, with_product);
+    #[cfg(feature = "typed")]
+    one::<purl::PackageType>(ck, mon, depth, with_product);
+}
+
+fn checksum_stage(ck: &mut Check) {
+    use crate::m_checksum::*;
+    use crate::xstate::bfs;
+    let m = CModel::new(ck.prop, ck.tier);
+    let t0 = Instant::now();
+    let mut res = bfs(&m, None, 3_000_000);
+    res.acc.nontrivial = res.states;
+    ck.states = Some(ck.states.unwrap_or(0) + res.states);
+    ck.transitions = Some(ck.transitions.unwrap_or(0) + res.transitions);
+    ck.traces = ck.transitions;
+    if !res.fixpoint {
+        ck.exhaustive = false;
+    }
+    ck.add_stage(
+        res.acc,
+        json!({"engine": "C-bfs", "model": "checksum-bfs", "algorithm_spellings": m.spellings, "algorithm_classes": m.lower, "actions_per_state": m.acts.len(), "initial_states": res.inits,
+               "states": res.states, "transitions": res.transitions, "max_depth": res.max_depth, "fixpoint_reached": res.fixpoint, "new_states_per_depth": res.per_depth, "wall_s": t0.elapsed().as_secs_f64()}),
+    );
+}
+
+fn c11(ck: &mut Check) {
+    use crate::m_quals::*;
+    use crate::xstate::bfs;
+    let mut states = 0u64;
+    let mut transitions = 0u64;
+    for typed in [false, true] {
+        let m = QModel::new(ck.tier, typed);
+        let t0 = Instant::now();
+        let mut res = bfs(&m, None, 3_000_000);
+        let mut pa = Acc::new();
+        // all pairs of reached contents (one representative per distinct reference content)
+        let mut reps: Vec<QState> = Vec::new();
+        let mut seen = std::collections::BTreeSet::new();
+        for s in &res.reached {
+            if seen.insert(s.refm.clone()) {
+                reps.push(s.clone());
+            }
+        }
+        pairwise(&reps, &mut pa);
+        res.acc.merge(pa);
+        res.acc.nontrivial = res.states;
+        states += res.states;
+        transitions += res.transitions;
+        if !res.fixpoint {
+            ck.exhaustive = false;
+        }
+        ck.add_stage(
+            res.acc,
+            json!({"engine": "C-bfs", "model": m.name, "keys": m.keys, "invalid_keys": m.invalid, "values": m.values, "actions_per_state": m.acts.len(),
+                   "initial_states": res.inits, "states": res.states, "transitions": res.transitions, "max_depth": res.max_depth, "fixpoint_reached": res.fixpoint,
+                   "new_states_per_depth": res.per_depth, "distinct_reference_contents": reps.len(), "wall_s": t0.elapsed().as_secs_f64()}),
+        );
+    }
+    ck.states = Some(ck.states.unwrap_or(0) + states);
+    ck.transitions = Some(ck.transitions.unwrap_or(0) + transitions);
+    ck.traces = ck.transitions;
 }
 
 pub fn prop_static(p: &str) -> &'static str {
@@ -139,6 +247,15 @@ pub fn replay_case(prop: &'static str, case: &Value) -> Option<Vec<Violation>> {
             let spec = BuildSpec::from_json(&case["spec"])?;
             BuildEval { prop, mon: monitors_for(prop) }.eval(case["flavor"].as_str()?, &spec, &mut acc);
         },
+        "quals-bfs" => return crate::xstate::replay(&crate::m_quals::QModel::new(Tier::Thorough, false), case).or_else(|| crate::xstate::replay(&crate::m_quals::QModel::new(Tier::Quick, false), case)),
+        "quals-typed-bfs" => return crate::xstate::replay(&crate::m_quals::QModel::new(Tier::Quick, true), case),
+        "checksum-bfs" => return crate::xstate::replay(&crate::m_checksum::CModel::new(prop, Tier::Thorough), case),
+        "builder-bfs" => return crate::xstate::replay(&crate::m_builder::BModel::<String>::new(prop, monitors_for(prop), 2), case),
+        #[cfg(feature = "typed")]
+        "builder-typed-bfs" => return crate::xstate::replay(&crate::m_builder::BModel::<purl::PackageType>::new(prop, monitors_for(prop), 2), case),
+        "builder-bfs-product" => return crate::m_builder::replay_product::<String>(prop, monitors_for(prop), case),
+        #[cfg(feature = "typed")]
+        "builder-typed-bfs-product" => return crate::m_builder::replay_product::<purl::PackageType>(prop, monitors_for(prop), case),
         #[cfg(feature = "typed")]
         "c08-name" => sweeps::c08_name_case(case["ty"].as_str()?, case["name"].as_str()?, &mut acc),
         #[cfg(feature = "typed")]
@@ -189,6 +306,7 @@ pub fn plans_for(prop: &str, tier: Tier) -> Vec<Plan> {
     let base: Vec<Lens> = match prop {
         "C07" => pick(&["A3", "A1a", "A1b"]),
         "C13" => pick(&["A2-", "A1a", "A1b", "A3", "A4", "A5a", "A5b", "A6"]),
+        "C12" => pick(&["A6"]),
         "C08" => pick(&["A7", "A2-", "A1b"]),
         "C18" => pick(&["A7"]),
         _ => all.clone(),
@@ -197,6 +315,7 @@ pub fn plans_for(prop: &str, tier: Tier) -> Vec<Plan> {
     match prop {
         "C01" | "C03" | "C04" | "C06" | "C07" | "C10" | "C02" | "C05" | "C08" => plans.extend(typed_plans(tier, &["A1b", "A3", "A5b", "A6"])),
         "C18" => plans.extend(typed_plans(tier, &["A1b", "A3"])),
+        "C12" => plans.extend(typed_plans(tier, &["A6"])),
         _ => {},
     }
     plans
